@@ -153,15 +153,16 @@ MUTATORS = ('append', 'extend', 'insert', 'pop', 'remove', 'clear', 'update', 's
             'add', 'discard', 'set', 'remove_option', 'subtract', 'write', 'writelines', 'seek', 'truncate')
 
 
-def readonly_frame(repo, specs, may_call=(), tag='readonly'):
+def readonly_frame(repo, specs, may_call=(), tag='readonly', immutable_params=()):
     """Frame obligation "this function only reads": one record per (relpath, qualname) in specs.  The function may not update in place
     anything reachable from its parameters (self included): no item/attribute/slice store, augmented store or delete whose root is a
     parameter or a local name bound to (part of) one, no mutator method call or heapq operation on such a root, and every method it calls
     on a parameter is itself in `specs`/`may_call` (so the obligation is closed under calls).  Syntactic, hence over all paths."""
     by_file = {}
-    names = {q.rsplit('.', 1)[-1] for _, q in specs} | set(may_call)
+    specs = [tuple(x) + (None,) * (3 - len(x)) for x in specs]      # (relpath, qualname, [only these parameters] or None = all)
+    names = {q.rsplit('.', 1)[-1] for _, q, _o in specs} | set(may_call)
     records = []
-    for rel, qn in specs:
+    for rel, qn, only in specs:
         path = os.path.join(repo, rel)
         key = '%s:%s' % (rel, qn)
         name = '%s.frame.%s.%s' % (tag, rel.replace('/', '.').replace('.py', ''), qn)
@@ -172,6 +173,8 @@ def readonly_frame(repo, specs, may_call=(), tag='readonly'):
             records.append({'name': name, 'ok': False, 'detail': 'function not found', 'fn': key, 'site': key})
             continue
         params = {a.arg for a in node.args.args}
+        if only is not None:
+            params = params & set(only)
         tainted = set(params)
 
         def root_of(t):
@@ -230,10 +233,58 @@ def readonly_frame(repo, specs, may_call=(), tag='readonly'):
                             and f.attr not in ('format', 'upper', 'lower', 'join', 'get', 'keys', 'values', 'items', 'getint', 'getfloat',
                                                'getboolean', 'has_option', 'is_alive', 'isdigit', 'isalpha', 'strip', 'rstrip', 'split'):
                         bad.append((n.lineno, 'call to %s, which is not covered by this frame obligation' % ast.unparse(f)))
-                    if ast.unparse(f) in ('heapq.heappush', 'heapq.heappop', 'heapq.heapify', 'random.shuffle') and n.args:
+                # a free function (or a function of another module) that receives part of a parameter could update it: it must be declared
+                if isinstance(f, ast.Name) or (isinstance(f, ast.Attribute) and root_of(f.value)[0] not in tainted):
+                    fname = f.id if isinstance(f, ast.Name) else f.attr
+                    if fname not in names and fname not in ('len', 'int', 'str', 'float', 'print', 'range', 'enumerate', 'reversed', 'sorted', 'list',
+                                                            'tuple', 'isinstance', 'min', 'max', 'sum', 'abs', 'repr', 'format', 'perf_counter'):
+                        for arg in list(n.args) + [k.value for k in n.keywords]:
+                            r3, _ = root_of(arg)
+                            if r3 in tainted and r3 not in immutable_params:
+                                bad.append((n.lineno, '%s receives %s and is not covered by this frame obligation' % (ast.unparse(f), ast.unparse(arg))))
+                if isinstance(f, ast.Attribute) and ast.unparse(f) in ('heapq.heappush', 'heapq.heappop', 'heapq.heapify', 'random.shuffle') and n.args:
                         r2, _ = root_of(n.args[0])
                         if r2 in tainted:
                             bad.append((n.lineno, '%s on %s' % (ast.unparse(f), ast.unparse(n.args[0]))))
         records.append({'name': name, 'ok': not bad, 'detail': '; '.join('line %d: %s' % b for b in sorted(set(bad))), 'fn': key, 'site': key,
                         'witness': None if not bad else {'file': rel, 'function': qn, 'statements': sorted(set(bad))}})
+    return records
+
+
+FS_WRITERS = ('os.remove', 'os.unlink', 'os.rename', 'os.replace', 'os.rmdir', 'os.removedirs', 'os.makedirs', 'os.mkdir', 'os.truncate',
+              'shutil.rmtree', 'shutil.move', 'shutil.copy', 'shutil.copy2', 'shutil.copyfile', 'shutil.copytree', 'os.system', 'subprocess.run',
+              'subprocess.call', 'subprocess.Popen')
+
+
+def fs_write_frame(repo, rel, allowed, tag='fs'):
+    """Frame obligation "this module changes the file system only through the allowed statements": one record per function of `rel`.
+    A statement counts when it opens a file for writing/appending (open / codecs.open / io.open with a mode containing w, a, x or +),
+    or calls one of FS_WRITERS, or a write_text/write_bytes/unlink/rename method.  `allowed`: {'qualname': [source text of the call, ...]}."""
+    path = os.path.join(repo, rel)
+    records = []
+    if not os.path.exists(path):
+        return [{'name': '%s.frame.%s.<file>' % (tag, rel), 'ok': False, 'detail': 'file is missing', 'site': rel}]
+    for qn, node in functions_of(path):
+        sites = []
+        for ch in ast.walk(node):
+            if isinstance(ch, (ast.FunctionDef, ast.AsyncFunctionDef)) and ch is not node:
+                continue
+            if not isinstance(ch, ast.Call):
+                continue
+            src = ast.unparse(ch.func)
+            if src in ('open', 'codecs.open', 'io.open'):
+                mode = ast.unparse(ch.args[1]) if len(ch.args) > 1 else "'r'"
+                for k in ch.keywords:
+                    if k.arg == 'mode':
+                        mode = ast.unparse(k.value)
+                if any(c in mode for c in 'wax+') or not (mode.startswith("'") or mode.startswith('"')):
+                    sites.append((ch.lineno, ast.unparse(ch)))
+            elif src in FS_WRITERS or (isinstance(ch.func, ast.Attribute) and ch.func.attr in ('write_text', 'write_bytes', 'unlink', 'rename', 'rmdir', 'touch')):
+                sites.append((ch.lineno, ast.unparse(ch)))
+        want = allowed.get(qn, [])
+        got = [s for _, s in sites]
+        ok = sorted(got) == sorted(want)
+        records.append({'name': '%s.frame.%s.%s' % (tag, rel.replace('/', '.').replace('.py', ''), qn), 'ok': ok,
+                        'detail': '' if ok else 'file-system updates %r, allowed %r' % (sites, want), 'fn': '%s:%s' % (rel, qn), 'site': '%s:%s' % (rel, qn),
+                        'witness': None if ok else {'file': rel, 'function': qn, 'statements': sites, 'allowed': want}})
     return records
